@@ -83,7 +83,7 @@ SWITCHED = ('switch', 'switch_bind')
 def required_cells(tier):
     return (['kind:' + k for k in KINDS] + ['history:same-object-twice', 'history:switch-AB', 'history:switch-BA',
             'history:ordered-pair', 'history:random', 'history:fresh-object', 'module-dict-checks', 'baseline-children',
-            'session-options:none', 'session-options:given'])
+            'session-options:none', 'session-options:given', 'mode:native', 'mode:pytest'])
 
 
 def gen(rng, uid):
@@ -130,10 +130,11 @@ def session_state(options):
     return d
 
 
-def observe(e, sw):
-    """run one doctest object under switch sw -> JSON-able observation"""
+def observe(e, sw, mode='native'):
+    """run one doctest object under switch sw -> JSON-able observation.  mode: 'native' is what the runner sets,
+    'pytest' is the default of a DocTest object (direct API use, plugin items)"""
     os.environ['XV_SW'] = sw
-    e.mode = 'native'
+    e.mode = mode
     mod = sys.modules.get(e.modname)
     t0 = len(mod.T) if mod is not None and hasattr(mod, 'T') else 0
     try:
@@ -159,8 +160,8 @@ def observe(e, sw):
 
 # ---------------------------------------------------------------- baseline helper (fresh process, fork per observation)
 
-def baseline_main(path, options_json='null'):
-    """python -m xv.props.c11 <path> [options]  -> JSON {callname|sw: observation}"""
+def baseline_main(path, options_json='null', mode='native'):
+    """python -m xv.props.c11 <path> [options] [mode]  -> JSON {callname|sw: observation}"""
     warnings.simplefilter('ignore')
     options = json.loads(options_json)
     exs = load(path)
@@ -175,7 +176,7 @@ def baseline_main(path, options_json='null'):
                     if options is not None:
                         e.config.update({'default_runtime_state': session_state(options)})
                     # a fresh object in a process in which nothing ran before
-                    ob = observe(e, sw)
+                    ob = observe(e, sw, mode)
                     with os.fdopen(w, 'w') as f:
                         json.dump(ob, f)
                 finally:
@@ -188,8 +189,8 @@ def baseline_main(path, options_json='null'):
     sys.stdout.write(json.dumps(out))
 
 
-def baseline(ctx, path, options=None):
-    p = subprocess.run([sys.executable, '-m', 'xv.props.c11', path, json.dumps(options)], stdout=subprocess.PIPE, stderr=subprocess.PIPE,
+def baseline(ctx, path, options=None, mode='native'):
+    p = subprocess.run([sys.executable, '-m', 'xv.props.c11', path, json.dumps(options), mode], stdout=subprocess.PIPE, stderr=subprocess.PIPE,
                        text=True, timeout=300, cwd=ctx.tmp)
     if p.returncode != 0 or not p.stdout.strip():
         raise AssertionError('baseline helper failed: %s' % p.stderr[-2000:])
@@ -211,8 +212,11 @@ def check_module(ctx, idx, seed):
     options = rng.choice(SESSION_OPTIONS)
     case = {'index': idx, 'case_seed': seed, 'session_options': options}
     ctx.cell('session-options:' + ('none' if options is None else 'given'))
+    mode = rng.choice(['native', 'native', 'pytest'])
+    case['mode'] = mode
+    ctx.cell('mode:' + mode)
     try:
-        base = baseline(ctx, path, options)
+        base = baseline(ctx, path, options, mode)
         ctx.event('baseline_observations', len(base))
         ctx.cell('baseline-children', len(base))
         if any(v is None for v in base.values()):
@@ -255,7 +259,7 @@ def check_module(ctx, idx, seed):
                 mod = sys.modules.get(modname)
                 if mod is not None:
                     mod_snap = dict(mod.__dict__)
-                ob = observe(e, sw)
+                ob = observe(e, sw, mode)
                 ctx.evaluation()
                 ctx.event('history_runs_compared')
                 if step > 0:
@@ -332,4 +336,4 @@ TECHNIQUE = "runtime monitor: per-run observations (outcome, exception type, log
 
 
 if __name__ == '__main__':
-    baseline_main(*sys.argv[1:3])
+    baseline_main(*sys.argv[1:4])
